@@ -662,6 +662,28 @@ Definition request_canon (a : request) : request :=
      rq_form := canon_flat (rq_form a); rq_form_ctype := rq_form_ctype a |}.
 Definition request_equiv (a b : request) : bool := request_eqb (request_canon a) (request_canon b).
 
+(* --- vocabulary of the theorems *)
+Definition start_net (script : list behaviour) (pre : bool) : net := {| n_script := script; n_done := pre; n_seen := [] |}.
+
+(* the outcome api.Client.Do reports for a behaviour of the peer *)
+Definition answer_of (b : option behaviour) : outcome :=
+  match b with
+  | Some (SResp c p) => OResp c p
+  | Some (SCancelBody c) => OErr (Some c)
+  | _ => OErr None
+  end.
+
+(* a 204 answer has no body (RFC 9110 15.3.5; net/http enforces it on both sides) *)
+Definition wf_answer (code : Z) (parsed : option envelope) : Prop := code = 204 -> parsed = None.
+Definition wf_script (script : list behaviour) : Prop := forall c p, In (SResp c p) script -> wf_answer c p.
+
+Definition parsed_data_ok (parsed : option envelope) : bool :=
+  match parsed with Some e => env_data_ok e | None => false end.
+
+(* the label name handed to LabelValues contains no "/" *)
+Definition label_ok (c : api_call) : Prop :=
+  match c with CLabelValues label _ _ _ _ => ~ In slash label | _ => True end.
+
 (* --- time formatting: exact test |x - (sec + nsec/1e9)| < 1/1000 on the rational value of x *)
 Definition within_ms (x : f64) (sec nsec : Z) : bool :=
   let t := sec * 1000000000 + nsec in
